@@ -1,5 +1,6 @@
 import Zog.Refine
 import Zog.Gen.Facts
+import Zog.Props.C07
 
 /-!
 # The regenerated code-shape facts satisfy `FactsOK`  (proof obligation of C01 C02 C04 C05 C09 C12 C13)
@@ -15,5 +16,25 @@ theorem facts_ok : FactsOK Gen.facts := by decide
 theorem engine_is_spec (env : Env) (m : Mode) (s : Schema) (tag : Option String) (v : Val) (d : DVal) :
     Engine.run env Gen.facts m s tag v d = Spec.run env m s tag v d :=
   Engine.run_refines env Gen.facts facts_ok m s tag v d
+
+/-! ## cross-cutting regenerated facts (obligations of every property whose clauses rely on them) -/
+
+/-- every constructor that takes an object from a pool assigns every live field of it: nothing a previous
+    call or node left in a recycled context, issue, issue collection or path builder can reach this one
+    (catch flags, the current test, context values, messages, params, paths) -/
+theorem recycled_objects_start_clean :
+    C07.coversAll "NewExecCtx" "ExecCtx" = true ∧
+    C07.coversAll "NewZogIssue" "ZogIssue" = true ∧ C07.coversAll "IssueFromTest" "ZogIssue" = true ∧
+    C07.coversAll "IssueFromCoerce" "ZogIssue" = true ∧
+    C07.coversAll "NewErrsList" "ErrsList" = true ∧ C07.coversAll "NewErrsMap" "ErrsMap" = true ∧
+    C07.coversAll "NewSchemaCtx" "SchemaCtx" = true ∧ C07.coversAll "NewValidateSchemaCtx" "SchemaCtx" = true ∧
+    (C07.assignedBy "NewPathBuilder").contains "reslice[:1]" = true := C07.constructors_complete
+
+/-- executions write no schema object and no package-level variable (assignments, inc/dec, in-place mutator
+    calls in process / validate / Parse / Validate and everything of the schema files reachable from them) -/
+theorem executions_write_no_schema : Gen.schemaWrites = [] := by decide
+
+/-- the closures a schema is made of keep no state between calls -/
+theorem closures_are_stateless : Gen.closureWrites = [] := by decide
 
 end Zog.Props
